@@ -3,8 +3,12 @@
    executed at the BigQ instance of the number classes (see Num/BigQOps.v). *)
 From Bignums Require Import BigQ.
 From Coq Require Import ZArith QArith Qabs List.
-From Inkfem Require Import Num.NumOps Num.BigQOps Gen.GenStiffness.
+From Inkfem Require Import Num.NumOps Num.BigQOps Gen.GenStiffness Model.Types Model.Slice Model.Loads.
 Import ListNotations.
+
+(* m / 2^e : how the harness writes a float64 *)
+Definition dy (m : Z) (e : positive) : Q := Qmake m (Pos.shiftl 1 (Npos e)).
+Arguments dy m%Z e%positive.
 
 Definition indexed {A} (l : list A) : list (nat * A) := combine (seq 0 (length l)) l.
 
@@ -28,3 +32,121 @@ Definition stiff_mismatch (tol : Q) (kc : nat * stiff_case) : list (nat * nat * 
 
 Definition stiff_mismatches (tol : Q) (cs : list stiff_case) : list (nat * nat * nat) :=
   flat_map (stiff_mismatch tol) (indexed cs).
+
+(* ---- execution number type: (value, error scale) pairs over bigQ ---- *)
+Definition X : Type := (bigQ * bigQ)%type.
+#[export] Instance XOps : NumOps X := MagOps (F:=bigQ).
+#[export] Instance XCmp : NumCmp X := MagCmp (F:=bigQ).
+Definition xq (q : Q) : X := einj (bq q).
+(* implementation value v agrees with model value m = (value, scale) *)
+Definition agrees (tol : Q) (m : X) (v : Q) : bool :=
+  close (bq tol) (snd m) (fst m) (bq v).
+(* same, with an additional absolute allowance *)
+Definition agrees_abs (tol atol : Q) (m : X) (v : Q) : bool :=
+  nleb (nabs (nsub (fst m) (bq v))) (nadd (nmul (bq tol) (snd m)) (bq atol)).
+Definition agrees_tor (tol : Q) (m : tor X) (v : tor Q) : bool :=
+  agrees tol (t_fx m) (t_fx v) && agrees tol (t_fy m) (t_fy v) && agrees tol (t_mz m) (t_mz v).
+
+(* ---- stage B: sliced bars (positions, coordinates, ext / left / right loads) ---- *)
+(* mismatch = (bar index, node index, field) ; field 0 = node count, 1 = t, 2 = x, 3 = y,
+   4 = ext, 5 = left, 6 = right *)
+Definition cmp_node (tol : Q) (bi ni : nat) (m : pnode X) (o : pnode Q) : list (nat * nat * nat) :=
+  (if agrees_abs tol (1 # 1000000000000) (pn_t m) (pn_t o) then [] else [(bi, ni, 1%nat)]) ++
+  (if agrees tol (pn_x m) (pn_x o) then [] else [(bi, ni, 2%nat)]) ++
+  (if agrees tol (pn_y m) (pn_y o) then [] else [(bi, ni, 3%nat)]) ++
+  (if agrees_tor tol (pn_ext m) (pn_ext o) then [] else [(bi, ni, 4%nat)]) ++
+  (if agrees_tor tol (pn_left m) (pn_left o) then [] else [(bi, ni, 5%nat)]) ++
+  (if agrees_tor tol (pn_right m) (pn_right o) then [] else [(bi, ni, 6%nat)]).
+
+Definition cmp_sliced_bar (tol : Q) (weight : bool) (bi : nat) (b : bar Q) (obs : list (pnode Q))
+  : list (nat * nat * nat) :=
+  let m := preprocess_bar weight (bar_map xq b) in
+  if negb (Nat.eqb (length m) (length obs)) then [(bi, length m, 0%nat)] else
+  flat_map (fun p => cmp_node tol bi (fst p) (fst (snd p)) (snd (snd p))) (indexed (combine m obs)).
+
+Definition cmp_sliced (tol : Q) (weight : bool) (bars : list (bar Q * list (pnode Q))) : list (nat * nat * nat) :=
+  flat_map (fun p => cmp_sliced_bar tol weight (fst p) (fst (snd p)) (snd (snd p))) (indexed bars).
+
+(* ---- stage C: equation numbers ---- *)
+From Inkfem Require Import Model.Dof Model.Assemble.
+(* observed: per bar (in the implementation's processing order) its skeleton and the numbers of
+   its slice nodes; the numbers of the structural nodes; the count.  Mismatch codes:
+   (0, _, _) count, (1, bar, node) slice-node numbers, (2, node, _) structural node numbers,
+   (3, bar, _) number of triples *)
+Definition d3_eqb (a b : dof3) : bool :=
+  Nat.eqb (fst (fst a)) (fst (fst b)) && Nat.eqb (snd (fst a)) (snd (fst b)) && Nat.eqb (snd a) (snd b).
+Definition cmp_dofs (obs : list (skel * list dof3)) (onodes : list (nat * dof3)) (ocount : nat)
+  : list (nat * nat * nat) :=
+  let r := assign (map fst obs) in
+  let count := fst (fst r) in let nd := snd (fst r) in let bd := snd r in
+  (if Nat.eqb count ocount then [] else [(0, count, ocount)%nat]) ++
+  flat_map (fun p => let bi := fst p in let m := fst (snd p) in let o := snd (snd (snd p)) in
+      if negb (Nat.eqb (length m) (length o)) then [(3, bi, length m)%nat] else
+      flat_map (fun q => if d3_eqb (fst (snd q)) (snd (snd q)) then [] else [(1, bi, fst q)%nat])
+               (indexed (combine m o)))
+    (indexed (combine bd obs)) ++
+  flat_map (fun p => match lookup (fst p) nd with
+                     | Some d => if d3_eqb d (snd p) then [] else [(2, fst p, 0)%nat]
+                     | None => [(2, fst p, 1)%nat] end) onodes.
+
+(* ---- stage D: assembled system ---- *)
+From Coq Require Import FMapPositive.
+Definition key (n : N) (i j : nat) : positive := N.succ_pos (N.of_nat i * n + N.of_nat j).
+Definition kmap_add (m : PositiveMap.t X) (k : positive) (v : X) : PositiveMap.t X :=
+  PositiveMap.add k (match PositiveMap.find k m with Some x => nadd x v | None => v end) m.
+(* fast evaluation of kraw_at for all keys at once (cross-checked against the definitional
+   k_final on sampled entries by cmp_system) *)
+Definition kmap (n : N) (cs : list (nat * nat * X)) : PositiveMap.t X :=
+  fold_left (fun m c => kmap_add m (key n (fst (fst c)) (snd (fst c))) (snd c)) cs (PositiveMap.empty X).
+Definition fmap (fs : list (nat * X)) : PositiveMap.t X :=
+  fold_left (fun m c => kmap_add m (Pos.of_succ_nat (fst c)) (snd c)) fs (PositiveMap.empty X).
+Definition rowset (cs : list (nat * nat * X)) : PositiveMap.t unit :=
+  fold_left (fun m c => PositiveMap.add (Pos.of_succ_nat (fst (fst c))) tt m) cs (PositiveMap.empty unit).
+Definition supset (sup : list nat) : PositiveMap.t unit :=
+  fold_left (fun m d => PositiveMap.add (Pos.of_succ_nat d) tt m) sup (PositiveMap.empty unit).
+Definition mem (m : PositiveMap.t unit) (i : nat) : bool :=
+  match PositiveMap.find (Pos.of_succ_nat i) m with Some _ => true | None => false end.
+Definition x0 : X := (n0, n0).
+Definition x1 : X := (n1, n1).
+
+Record sys_case := {
+  sy_bars : list (pbar Q);                  (* bars with the implementation's nodes and numbers *)
+  sy_nodes : list (link * dof3);            (* externally constrained structural nodes *)
+  sy_n : nat;                               (* equation count *)
+  sy_K : list (nat * nat * Q);              (* implementation's stored entries *)
+  sy_F : list Q;
+  sy_sample : list (nat * nat)              (* entries on which the definitional k_final is also evaluated *)
+}.
+
+Definition pbar_x (p : pbar Q) : pbar X :=
+  {| pb_bar := bar_map xq (pb_bar p); pb_nodes := map (pnode_map xq) (pb_nodes p); pb_dofs := pb_dofs p |}.
+
+(* mismatch codes: (1,i,j) K entry differs; (2,i,j) model entry missing in the implementation;
+   (3,i,_) f entry differs; (4,i,j) fast and definitional evaluation of the model disagree *)
+Definition cmp_system (tol : Q) (c : sys_case) : list (nat * nat * nat) :=
+  let bars := map pbar_x (sy_bars c) in
+  let cs := all_contribs bars in
+  let fs := all_fterms bars in
+  let sup := supported_of (sy_nodes c) in
+  let n := N.of_nat (sy_n c) in
+  let km := kmap n cs in let fm := fmap fs in let rows := rowset cs in let ss := supset sup in
+  let kfin (i j : nat) : X :=
+    if mem ss i || mem ss j then (if Nat.eqb i j then x1 else x0)
+    else if negb (mem rows i) then (if Nat.eqb i j then x1 else x0)
+    else match PositiveMap.find (key n i j) km with Some v => v | None => x0 end in
+  let ffin (i : nat) : X :=
+    if mem ss i then x0 else match PositiveMap.find (Pos.of_succ_nat i) fm with Some v => v | None => x0 end in
+  let okeys := fold_left (fun m e => PositiveMap.add (key n (fst (fst e)) (snd (fst e))) tt m) (sy_K c) (PositiveMap.empty unit) in
+  flat_map (fun e => let i := fst (fst e) in let j := snd (fst e) in
+              if agrees tol (kfin i j) (snd e) then [] else [(1, i, j)%nat]) (sy_K c) ++
+  flat_map (fun cc => let i := fst (fst cc) in let j := snd (fst cc) in
+              match PositiveMap.find (key n i j) okeys with
+              | Some _ => []
+              | None => if agrees tol (kfin i j) 0 then [] else [(2, i, j)%nat]
+              end) cs ++
+  flat_map (fun p => if agrees tol (ffin (fst p)) (snd p) then [] else [(3, fst p, 0)%nat]) (indexed (sy_F c)) ++
+  (if Nat.eqb (length (sy_F c)) (sy_n c) then [] else [(3, length (sy_F c), 1)%nat]) ++
+  flat_map (fun ij => let i := fst ij in let j := snd ij in
+              let d := k_final cs sup i j in let f := kfin i j in
+              if neqb (fst d) (fst f) && neqb (snd d) (snd f)
+                 && neqb (fst (f_final fs sup i)) (fst (ffin i)) then [] else [(4, i, j)%nat]) (sy_sample c).
